@@ -13,6 +13,12 @@ pub struct C01 {
 	gen: HistGen,
 	pre: Option<(usize, Snap, usize)>,
 	ctx_existed: bool,
+	/// late-locked deal whose selection happens in the finalize step about to run
+	late: Option<(usize, Snap, usize, SendArgs)>,
+	/// outputs that were selected as inputs while still unconfirmed (min_conf 0):
+	/// a refresh before their creating transaction confirms marks them Spent and the
+	/// repair scan then frees them (known finding, same family as C05's)
+	spent_unconfirmed: std::collections::BTreeSet<(usize, String)>,
 }
 
 impl C01 {
@@ -23,6 +29,7 @@ impl C01 {
 		cfg.w_new_invoice += 4;
 		cfg.max_inflight = 3 + run.rng.below(4) as usize;
 		cfg.allow_late_lock = true;
+		cfg.p_late_lock = *run.rng.pick(&[20u64, 40]);
 		cfg.w_cancel = run.rng.below(4) as u32;
 		if !run.rng.chance(1, 4) {
 			cfg.p_node_fail = run.rng.below(20);
@@ -42,6 +49,8 @@ impl C01 {
 			gen,
 			pre: None,
 			ctx_existed: false,
+			late: None,
+			spent_unconfirmed: Default::default(),
 		}
 	}
 
@@ -55,7 +64,7 @@ impl C01 {
 	}
 
 	fn judge_ok(
-		&self,
+		&mut self,
 		run: &mut Run,
 		w: usize,
 		args: &SendArgs,
@@ -120,6 +129,25 @@ impl C01 {
 					"late_lock_selected_inputs_early",
 					format!("wallet {}: late-locked init stored inputs", w),
 				));
+				return v;
+			}
+			// the amount the recipient is asked to accept is fixed now: with 'amount
+			// includes fee' it is A - fee, the fee being the one the slate carries
+			let fee = slate.fee_fields.fee();
+			let expect = if args.incl_fee {
+				args.amount.saturating_sub(fee)
+			} else {
+				args.amount
+			};
+			if slate.amount != expect || ctx.amount != slate.amount {
+				v.push(run.viol(
+					"conservation",
+					"late_lock_recipient_amount_wrong",
+					format!(
+						"wallet {}: late-locked send of {} (amount includes fee: {}) fee {}: slate amount {} context amount {} expected {}",
+						w, args.amount, args.incl_fee, fee, slate.amount, ctx.amount, expect
+					),
+				));
 			}
 			return v;
 		}
@@ -177,15 +205,23 @@ impl C01 {
 			}
 			let c = run.ex.world.commit_of(w, rec);
 			let t = truth.iter().find(|t| t.commit == c);
+			if rec.status == OutputStatus::Unconfirmed {
+				self.spent_unconfirmed.insert((w, kid.to_hex()));
+			}
 			match t {
 				None => {
 					if rec.status == OutputStatus::Unconfirmed && args.min_conf == 0 {
 						run.cov.not_judged("unconfirmed_input_with_minconf_0");
 						continue;
 					}
+					let sig = if self.spent_unconfirmed.contains(&(w, kid.to_hex())) {
+						"input_not_in_utxo:output_earlier_spent_while_unconfirmed"
+					} else {
+						"input_not_in_utxo"
+					};
 					v.push(run.viol(
 						"inputs_spendable",
-						"input_not_in_utxo",
+						sig,
 						format!(
 							"wallet {}: selected input {} ({}) is not in the node's unspent set",
 							w,
@@ -307,12 +343,250 @@ impl C01 {
 	}
 }
 
+impl C01 {
+	/// A late-locked send selects its inputs when the reply is finalized.
+	fn judge_late(
+		&self,
+		run: &mut Run,
+		w: usize,
+		d: usize,
+		pre: &Snap,
+		_nctx: usize,
+		args: &SendArgs,
+		step: &Step,
+		out: &StepOut,
+	) -> Vec<Violation> {
+		let mut v = vec![];
+		let deal = run.model.deals[d].clone();
+		let post = run.ex.world.snap(w);
+		let acct = match pre.acct_path(&pre.active) {
+			Some(a) => a,
+			None => return v,
+		};
+		let new_sent: Vec<_> = post
+			.txs
+			.iter()
+			.filter(|t| {
+				t.tx_slate_id == Some(deal.id)
+					&& t.tx_type == TxLogEntryType::TxSent
+					&& !pre.txs.iter().any(|p| p.id == t.id && p.parent_key_id == t.parent_key_id)
+			})
+			.cloned()
+			.collect();
+		if out.ok {
+			run.cov.case(
+				&format!(
+					"late_finalize|ok|{}|{}|{}|{}",
+					args.min_conf, args.max_outputs, args.num_change, args.use_all
+				),
+				true,
+			);
+			run.cov.probe("late_lock_selection_judged");
+			let sent = match new_sent.first() {
+				Some(s) => s.clone(),
+				None => {
+					v.push(run.viol(
+						"late_lock",
+						"late_lock_no_sent_entry",
+						format!("wallet {}: late-locked finalize succeeded without a sent entry", w),
+					));
+					return v;
+				}
+			};
+			let linked: Vec<_> = post
+				.outputs
+				.iter()
+				.filter(|o| o.tx_log_entry == Some(sent.id) && o.root_key_id == sent.parent_key_id)
+				.collect();
+			let tip = run.ex.world.chain.height();
+			let truth = run.ex.world.truth(w);
+			let maturity = global::coinbase_maturity();
+			let mut in_sum: u128 = 0;
+			let mut n_in = 0usize;
+			let mut change: u128 = 0;
+			let mut n_change = 0usize;
+			for o in &linked {
+				let before = pre
+					.outputs
+					.iter()
+					.find(|p| p.key_id == o.key_id && p.mmr_index == o.mmr_index);
+				match before {
+					Some(b) => {
+						// an input: it existed before the call
+						n_in += 1;
+						in_sum += o.value as u128;
+						if b.root_key_id != acct {
+							v.push(run.viol(
+								"inputs_spendable",
+								"input_of_other_account",
+								format!("wallet {}: late lock selected output {} of another account", w, o.key_id.to_hex()),
+							));
+							return v;
+						}
+						match b.status {
+							OutputStatus::Locked | OutputStatus::Spent | OutputStatus::Reverted => {
+								v.push(run.viol(
+									"inputs_spendable",
+									&format!("input_{}", b.status),
+									format!(
+										"wallet {}: late lock selected input {} which was {} before the call",
+										w,
+										o.key_id.to_hex(),
+										b.status
+									),
+								));
+								return v;
+							}
+							_ => {}
+						}
+						let c = run.ex.world.commit_of(w, b);
+						match truth.iter().find(|t| t.commit == c) {
+							None => {
+								if b.status == OutputStatus::Unconfirmed && args.min_conf == 0 {
+									run.cov.not_judged("unconfirmed_input_with_minconf_0");
+								} else {
+									v.push(run.viol(
+										"inputs_spendable",
+										"input_not_in_utxo",
+										format!(
+											"wallet {}: late lock selected input {} ({}) not in the node's unspent set",
+											w,
+											o.key_id.to_hex(),
+											b.status
+										),
+									));
+									return v;
+								}
+							}
+							Some(t) => {
+								if t.is_coinbase && t.height + maturity > tip {
+									v.push(run.viol(
+										"inputs_spendable",
+										"input_immature_coinbase",
+										format!("wallet {}: late lock selected immature coinbase {}", w, o.key_id.to_hex()),
+									));
+									return v;
+								}
+								let confs = 1 + tip.saturating_sub(t.height);
+								if confs < args.min_conf {
+									v.push(run.viol(
+										"inputs_spendable",
+										"input_too_few_confirmations",
+										format!(
+											"wallet {}: late lock input {} has {} confirmations, {} requested",
+											w,
+											o.key_id.to_hex(),
+											confs,
+											args.min_conf
+										),
+									));
+									return v;
+								}
+							}
+						}
+					}
+					None => {
+						n_change += 1;
+						change += o.value as u128;
+					}
+				}
+			}
+			let fee = deal.fee.unwrap_or(0) as u128;
+			let amount = deal.amount as u128; // the recipient amount agreed at initiation
+			if in_sum != amount + fee + change {
+				v.push(run.viol(
+					"conservation",
+					"inputs_ne_amount_fee_change",
+					format!(
+						"wallet {} late lock: inputs {} != amount {} + fee {} + change {}",
+						w, in_sum, amount, fee, change
+					),
+				));
+				return v;
+			}
+			let min_fee = tx_fee(n_in, n_change + 1, 1) as u128;
+			if fee < min_fee {
+				v.push(run.viol(
+					"fee_minimum",
+					"fee_below_minimum",
+					format!(
+						"wallet {} late lock: fee {} below network minimum {} for {} inputs / {} outputs",
+						w,
+						fee,
+						min_fee,
+						n_in,
+						n_change + 1
+					),
+				));
+				return v;
+			}
+		} else if out.err.is_some() {
+			let region = if step.node_fail.is_some() || step.fault.is_some() {
+				"injected_fault"
+			} else {
+				"other"
+			};
+			run.cov.case(&format!("late_finalize|err|{}", region), true);
+			if region == "injected_fault" {
+				// a failing write between the reservation batch and the rest is C07's subject
+				run.cov.not_judged("late_finalize_failed_under_injected_fault");
+				return v;
+			}
+			if out.err.as_ref().map(|e| e.contains("Payment Proof")).unwrap_or(false) {
+				// the reply was refused for its proof (the recipient signed under another
+				// account's address): a refused reply, judged by C07/C11
+				run.cov.not_judged("late_finalize_reply_refused_for_its_proof");
+				return v;
+			}
+			run.cov.probe("late_lock_refused");
+			let locked_pre: Vec<String> = pre
+				.outputs
+				.iter()
+				.filter(|o| o.status == OutputStatus::Locked)
+				.map(|o| o.key_id.to_hex())
+				.collect();
+			for o in &post.outputs {
+				if o.status == OutputStatus::Locked && !locked_pre.contains(&o.key_id.to_hex()) {
+					v.push(run.viol(
+						"failure_atomicity",
+						"failed_call_locked_output:finalize",
+						format!(
+							"wallet {}: finalize of the genuine reply to a late-locked send failed ({}) and left output {} locked",
+							w,
+							out.err.clone().unwrap_or_default(),
+							o.key_id.to_hex()
+						),
+					));
+					return v;
+				}
+			}
+			if !new_sent.is_empty() {
+				v.push(run.viol(
+					"failure_atomicity",
+					"failed_call_logged_entry:finalize",
+					format!("wallet {}: failed late-locked finalize added a sent log entry", w),
+				));
+				return v;
+			}
+			if post.outputs.len() > pre.outputs.len() {
+				v.push(run.viol(
+					"failure_atomicity",
+					"failed_call_created_output:finalize",
+					format!("wallet {}: failed late-locked finalize created an output record", w),
+				));
+				return v;
+			}
+		}
+		v
+	}
+}
+
 impl Prop for C01 {
 	fn id(&self) -> &'static str {
 		"C01"
 	}
 	fn owns_panic(&self, step: &Step) -> bool {
-		matches!(step.op, Op::InitSend { .. } | Op::PayInvoice { .. })
+		matches!(step.op, Op::InitSend { .. } | Op::PayInvoice { .. } | Op::Finalize { .. })
 	}
 	fn next(&mut self, run: &mut Run) -> Option<Step> {
 		self.gen.next(run)
@@ -320,6 +594,35 @@ impl Prop for C01 {
 	fn before(&mut self, run: &mut Run, step: &Step) {
 		self.pre = None;
 		self.ctx_existed = false;
+		self.late = None;
+		if let Op::Finalize { w, m, .. } = &step.op {
+			if *w < run.ex.world.wallets.len() && run.ex.world.is_open(*w) && *m < run.ex.msgs.len() {
+				if let Some(d) = run.model.deal_of_msg(run, *m) {
+					let deal = &run.model.deals[d];
+					let pending_late = run
+						.ex
+						.world
+						.get_context(*w, deal.id.as_bytes())
+						.map(|c| c.late_lock_args.is_some())
+						.unwrap_or(false);
+					if deal.late_lock
+						&& deal.payer == Some(*w)
+						&& pending_late
+						&& run.ex.msgs[*m].mutated.is_none()
+						&& deal.m2 == Some(*m)
+					{
+						// the arguments the selection will use are the ones given at initiation
+						let args = match run.trace.get(deal.created_at_step).map(|s| &s.op) {
+							Some(Op::InitSend { args, .. }) => Some(args.clone()),
+							_ => None,
+						};
+						if let Some(args) = args {
+							self.late = Some((d, run.ex.world.snap(*w), Self::count_ctx(run, *w), args));
+						}
+					}
+				}
+			}
+		}
 		if let Op::PayInvoice { w, m, .. } = &step.op {
 			if *w < run.ex.world.wallets.len() && run.ex.world.is_open(*w) && *m < run.ex.msgs.len() {
 				let id = run.ex.msgs[*m].slate.id;
@@ -336,6 +639,14 @@ impl Prop for C01 {
 	fn after(&mut self, run: &mut Run, step: &Step, out: &StepOut) -> Vec<Violation> {
 		let mut v = vec![];
 		self.gen.feedback(run, step, out);
+		if let Op::Finalize { w, .. } = &step.op {
+			if let Some((d, pre, nctx, args)) = self.late.take() {
+				if !out.skipped && !out.crashed && run.ex.world.is_open(*w) {
+					v.extend(self.judge_late(run, *w, d, &pre, nctx, &args, step, out));
+				}
+			}
+			return v;
+		}
 		let (w, args, what) = match &step.op {
 			Op::InitSend { w, args } => (*w, args.clone(), "init_send"),
 			Op::PayInvoice { w, args, .. } => (*w, args.clone(), "pay_invoice"),
